@@ -591,7 +591,7 @@ func (m *mon) crossCheck() {
 func cases(tier string, seed int64) []fw.Case {
 	var cs []fw.Case
 	stakes := [][]int64{{40e6, 30e6, 20e6, 10e6}, {25e6, 25e6, 25e6, 25e6}, {30e6, 30e6, 20e6, 10e6, 10e6}}
-	n := 12
+	n := 36
 	if tier == "thorough" {
 		n = 60
 	}
